@@ -76,8 +76,23 @@ def build_instance(ctx, K, nopt):
 
 
 # ---------------------------------------------------------------- generic proxy
+def touch_bases(K):
+    """preceding workload: flat reads / declaration look-ups on the base classes first"""
+    for B in reversed(K.__mro__[1:]):
+        if isinstance(B, type) and issubclass(B, Aggregate):
+            B.spec
+            B.subaggregates
+            if B is not Aggregate:
+                try:
+                    b = B.__new__(B)
+                    hasattr(b, "nosuchattr")
+                except Exception:
+                    pass
+    return K
+
+
 def h_getattr(ctx, cls, nopt):
-    K = ofxgen.class_by_name(cls)
+    K = touch_bases(ofxgen.class_by_name(cls))
     inst = build_instance(ctx, K, nopt)
     cand = names_below(K, 3, [])
     cand = [n for n in cand if n not in K.spec and not class_defines(K, n)][:24]
@@ -259,7 +274,7 @@ SIMPLE = [("STMTRS", "account", "bankacctfrom"), ("STMTRS", "transactions", "ban
 
 def h_simple(ctx, k):
     cls, prop, target = SIMPLE[k]
-    K = ofxgen.class_by_name(cls)
+    K = touch_bases(ofxgen.class_by_name(cls))
     found = ofxgen.kwargs_with(K, target)
     args, kw = found
     if not getattr(K.spec[target], "required", False) and not ctx.bool("present"):
